@@ -5,7 +5,7 @@ FAMILIES = [
     {"name": "disp", "family": "disp", "group": "disp", "driver": "drv_disp", "n_quick": 2500, "n_thorough": 25000, "seeds_thorough": 4},
 ]
 RULE = ("disp: L1 histories on the real dispensation keeper (sifapp.SetupWithBlacklist, CacheContext per message, ValidateBasic first): "
-        "create-distribution (1-5 outputs, duplicate recipients, 1-3 denoms, amounts 1..2^70, blocked recipients = blacklisted address and "
+        "create-distribution (1-5 outputs, duplicate recipients, 1-3 denoms, amounts 1..2^70, a fifth of the recipients spelled in UPPER-CASE bech32 (same account; also both spellings in one distribution), blocked recipients = blacklisted address and "
         "two module accounts, invalid coins/addresses/types, poor distributors), run-distribution (aimed at a pending record 90%; other runner/"
         "name/type 25%; counts 1..20 and 0, 21, -1), create-claim, blocks with the real BeginBlocker, funding, transfers; a directed "
         "runner-merge history; a directed same-block history create(runner A)/run/claims re-filed/create(same distributor+type, runner B, overlapping recipients)/runs (full and partial); after every operation the whole module store (iteration order, raw keys) and 33 balances are compared with the "
